@@ -80,7 +80,10 @@ def ref_sort(op):
         return ('FP', 'w(2)', '1+w(3)')
     if op == 'select':
         return ('arrayelem', 2)
-    return None
+    # standard string / regular-expression / sequence operators with a fixed
+    # result sort (an operator filed under the wrong result sort, e.g.
+    # str.from_int among the Int operators, is a table cell like any other)
+    return SORT_UNIVERSE.get(op)
 
 
 # ----------------------------------------------------------- polynomials
